@@ -19,7 +19,7 @@ import (
 // rare-mode selection with a known probability.
 func Uniform(t *rapid.T, n int, label string) int {
 	v := 0
-	for i := 0; i < 14; i++ {
+	for i := 0; i < 24; i++ {
 		v <<= 1
 		if rapid.Bool().Draw(t, label) {
 			v |= 1
